@@ -1,9 +1,9 @@
 package worlds
 
 import (
+	"fmt"
 	"github.com/jech/galene/group"
 	"github.com/jech/galene/rtpconn"
-	"fmt"
 	"sort"
 	"time"
 
